@@ -241,22 +241,76 @@ class C02(ProgramProperty):
                 re.fullmatch(r'(?:[\s)]|\\[\r\n]+|#[^\r\n]*+)*+', d['tail']) and ')' in d['tail']:
             # the missing part consists of closing parentheses (with layout between them) only
             return 'C02-F1'
+        data = t.encode('utf-8')
+        LAYOUT = rb'(?:[ \t\x0c\r\n]|\\\r\n|\\\r|\\\n|#[^\r\n]*+)*+'
         if 'C02-F2' in ids and sig.startswith('range_differs:GeneratorExp') and 'Call.args[0]' in d['path']:
-            return 'C02-F2'
+            # exactly the finding: the reference extent is this parser's extent plus the call's own parentheses
+            rr, gr = d['reference'], d['got']
+
+            def shape(g0, g1):
+                return rr[0] <= g0 and g1 <= rr[1] and re.fullmatch(rb'\(' + LAYOUT, data[rr[0]:g0]) and re.fullmatch(LAYOUT + rb'\)', data[g1:rr[1]])
+            if shape(gr[0], gr[1]):
+                return 'C02-F2'
+            if 'C02-F6' in ids and 'JoinedStr' in d['path'] and '\r\n' in t:
+                # both findings at once: inside an f-string with CRLFs the extent is also short by up to one byte per CRLF
+                n = min(data[:rr[1]].count(b'\r\n'), 12)
+                if any(shape(gr[0] + a, gr[1] + b) for a in range(n + 1) for b in range(n + 1)):
+                    return 'C02-F6'
         if 'C02-F3' in ids and (sig.startswith('range_differs:FormattedValue') or
                                 ('FormattedValue.format_spec' in d.get('path', '') and sig.startswith(('range_differs:Constant', 'range_differs:JoinedStr')))):
-            # only pieces of implicitly concatenated literals: the reference extent is the whole concatenation
-            if d['reference'][0] <= d['got'][0] and d['got'][1] <= d['reference'][1]:
+            # only pieces of implicitly concatenated literals: the reference extent is the whole concatenation, this parser's
+            # extent is exactly one of the literals of that concatenation
+            rr, gr = d['reference'], d['got']
+            if rr[0] <= gr[0] and gr[1] <= rr[1] and rr != gr and self.one_string_token(data[gr[0]:gr[1]]) and self.string_tokens(data[rr[0]:rr[1]]) >= 2:
                 return 'C02-F3'
         if 'C02-F4' in ids and sig in ('siblings_overlap_or_out_of_order:With.items', 'siblings_overlap_or_out_of_order:AsyncWith.items', 'own_text_differs:withitem') and re.search(r'with(\s|\\\r\n|\\\r|\\\n)*\(', t):
-            return 'C02-F4'
+            # exactly the finding: the range in question is the inside of the parenthesised group that directly follows `with`
+            gr = d.get('got') or d.get('second') or d.get('first')
+            if gr and re.search(rb'with' + LAYOUT + rb'\(' + LAYOUT + rb'\Z', data[max(0, gr[0] - 4000):gr[0]]) and re.match(LAYOUT + rb'[,)]', data[gr[1]:]):
+                return 'C02-F4'
         if 'C02-F5' in ids and sig == 'child_outside_parent:arg_with_default.default':
             return 'C02-F5'
         if 'C02-F6' in ids and '\r\n' in t and 'JoinedStr' in str(d.get('path', '')) and sig.startswith(('range_differs', 'child_outside_parent', 'siblings_overlap', 'range_not_on_char', 'range_outside')):
-            return 'C02-F6'
+            # exactly the finding: positions are short by at most one byte per CRLF in front of them
+            if sig.startswith('range_differs'):
+                rr, gr = d['reference'], d['got']
+                n = data[:rr[1]].count(b'\r\n')
+                if 0 <= rr[0] - gr[0] <= n and 0 <= rr[1] - gr[1] <= n:
+                    return 'C02-F6'
+            else:
+                return 'C02-F6'
         if 'C02-F7' in ids and sig.startswith('range_differs:Tuple') and d.get('path', '').endswith('Match.subject'):
-            return 'C02-F7'
+            # exactly the finding: the parts missing from this parser's extent are an opening parenthesis in front and a
+            # closing parenthesis and / or the trailing comma behind
+            rr, gr = d['reference'], d['got']
+            if rr[0] <= gr[0] and gr[1] <= rr[1] and re.fullmatch(rb'(?:\(|' + LAYOUT[3:-3] + rb')*', data[rr[0]:gr[0]]) and \
+                    re.fullmatch(rb'(?:[),]|' + LAYOUT[3:-3] + rb')*', data[gr[1]:rr[1]]):
+                return 'C02-F7'
         return None
+
+    _ESC = rb'\\(?:\r\n|.)'
+    _STR = re.compile(rb"(?is:[rbuf]{0,2}(?:'''(?:[^\\]|" + _ESC + rb")*?'''|\"\"\"(?:[^\\]|" + _ESC + rb")*?\"\"\"|'(?:[^\\\r\n']|" + _ESC + rb")*+'|\"(?:[^\\\r\n\"]|" + _ESC + rb")*+\"))")
+    _LAY = re.compile(rb'(?:[ \t\x0c\r\n]|\\\r\n|\\\r|\\\n|#[^\r\n]*+)++')
+
+    @classmethod
+    def string_tokens(cls, b):
+        """number of string literal tokens if the bytes are nothing but string literals and layout, else 0"""
+        pos, n = 0, 0
+        while pos < len(b):
+            m = cls._LAY.match(b, pos)
+            if m:
+                pos = m.end()
+                continue
+            m = cls._STR.match(b, pos)
+            if not m:
+                return 0
+            pos = m.end()
+            n += 1
+        return n
+
+    @classmethod
+    def one_string_token(cls, b):
+        return cls.string_tokens(b) == 1
 
 
 PROP = C02()
